@@ -66,7 +66,13 @@ class C09(Check):
         for l, co, eo in zip(cl, c, e):
             if eo.startswith('value'): nontriv.add(l)
             Z = int(l.split()[1])
-            if Z == 96 and 'Photo:96' in e[-1]: continue          # known data defect: photo knots of Cm out of order (C02)
+            if Z == 96 and 'Photo:96' in e[-1]:
+                # known data defect (C02): two photo knots of Cm are out of order near ln E[eV] = 8.295 (E ~ 4.00 keV); only THERE is the
+                # photo cross section — and with it this product — undefined; everywhere else curium is judged like any other element
+                from vlib.core import unhx as _u
+                try: E_ = _u(l.split()[-2])
+                except Exception: E_ = None
+                if E_ is not None and 3.95 <= E_ <= 4.06: continue
             if not core.expect_agrees(co, eo, rel=1e-11, stats=stats):
                 viol.append(dict(key=l, got=co, expected=eo, what='jump-ratio XRF cross section: library vs specification'))
         stats.update(rule='Z (every %s) x shells [-1,5] x 29 line macros (all classes, groups, boundaries) x energies at, +-1e-9 and +-2%% around every K/L1/L2/L3 edge of the element plus fixed energies, '
